@@ -67,7 +67,7 @@ RandTree(d, salt) ==
     LET leaf == RandomElement({Sink, FF, Q("c"), Q("d")})
         kind == RandomElement(IF d = 0 THEN {"leaf"} ELSE {"copy", "tagger", "stamp", "copy2", "tagger2", "leaf"})
         fan  == RandomElement(1..3)
-        tv   == RandomElement(TV3 \cup { <<{"a", "b"}, {}>>, <<{}, {"a", "x"}>> })
+        tv   == RandomElement(TV3 \cup { <<{"a", "b"}, {}>>, <<{}, {"a", "x"}>>, <<{"a", "b"}, {"a"}>>, <<{"x"}, {"x"}>> })
     IN CASE kind = "leaf" -> leaf
          [] kind = "stamp" -> Stamp(RandTree(d - 1, salt))
          [] kind \in {"copy", "copy2"} -> Copy([i \in 1..fan |-> RandTree(d - 1, salt + i)])
@@ -108,15 +108,26 @@ EventsB == { Ev("t1", "inprogress", "none", {}, <<>>, None, "plain"),
 EventsC == { Ev(i, s, t[1], t[2], r, ts, "plain") :
                i \in {"t1", None}, s \in {None, "inprogress", "success", "fail", "uxsuccess", "xfail", "skip", "exists", "unknown"},
                t \in TagsA \cup { <<"set", {"b"}>>, <<"fset", {"x", "b"}>> },
-               r \in { <<>>, <<"c">>, <<"r", "s">> }, ts \in {None, "1", "9"} }
+               r \in { <<>>, <<"c">>, <<"r", "s">> }, ts \in {None, "1", "9", "2", "3"} }
+
+\* Taggers whose add and discard sets OVERLAP: the outgoing set is (tags \cup add) \ discard, so a tag that is
+\* both added and discarded does NOT reach the targets (discard wins), whether or not the event carried it.
+TreesO == { Tag({"a", "b"}, {"a"}, <<Sink>>),
+            Copy(<<Tag({"a", "b"}, {"a"}, <<Sink, Q("c")>>), Sink>>),
+            Tag({"a"}, {"a"}, <<Tag({"x", "b"}, {"x"}, <<Sink>>), Stamp(Sink)>>) }
 
 \* Histories on ONE TimestampingStreamResult: supplied timestamps behind ("1") and ahead ("9") of the clock
 \* followed by unstamped events (keyword absent: "plain" with no route; explicit None: with a route).  Filling
 \* in is stateless - OwnField depends on the event alone - so the filled value must be the clock at THAT call.
 TreesT == { Stamp(Sink), Stamp(Copy(<<Sink, Sink>>)), Copy(<<Stamp(Sink), Sink>>), Stamp(Stamp(Sink)),
-            Tag({"a"}, {}, <<Stamp(Sink), Stamp(Q("c"))>>) }
+            Tag({"a"}, {}, <<Stamp(Sink), Stamp(Q("c"))>>) } \cup TreesO
+\* Supplied timestamps are forwarded UNCHANGED whatever they look like: "1" aware UTC behind the clock, "9" aware
+\* UTC ahead of it, "2" timezone-NAIVE, "3" aware at a non-UTC offset (the driver compares value and tzinfo).
+\* Tags: None, empty, containing "a" (which the overlapping taggers of TreesO both add and discard), not containing it.
 EventsT == { Ev("t1", "inprogress", "none", {}, <<>>, "9", "plain"),
-             Ev("t1", "inprogress", "none", {}, <<"r">>, "1", "plain"),
+             Ev("t1", "inprogress", "set", {"a", "x"}, <<"r">>, "1", "plain"),
              Ev("t1", "success", "none", {}, <<>>, None, "plain"),
-             Ev("t2", "inprogress", "none", {}, <<"r">>, None, "plain") }
+             Ev("t2", "inprogress", "set", {}, <<"r">>, None, "plain"),
+             Ev("t2", "success", "fset", {"x"}, <<>>, "2", "plain"),
+             Ev("t2", "fail", "set", {"a"}, <<"c">>, "3", "plain") }
 =============================================================================
